@@ -121,7 +121,10 @@
 //     and methods called on them are opaque calls; a key "[]pkg.T" declares the
 //     *slice* type (`"[]net/netip.Prefix": "(List Unit)"`: such a slice is
 //     known by its length only, `len` is the list's length) while T itself
-//     stays abstract;
+//     stays abstract; with `"[]pkg.T": "(List String)"` the elements are tokens:
+//     the variable of a range loop over such a slice holds the element's token
+//     and may be passed to a callee listed under "fn" (`f_callee v`), so "the
+//     first element for which the callee says …" is part of the meaning;
 //   - a keyed literal `T{f: v}` / `&T{f: v}` of a translated struct type is a
 //     structure instance (`some …` for `&`), omitted fields are zero; the
 //     given fields are evaluated in the order of the literal; fields of abstract
@@ -768,6 +771,7 @@ type fctx struct {
 	opaqueCalls map[*ast.CallExpr]string
 	nonNil      map[types.Object]bool
 	paramMut    []string // pointer parameters whose fields are assigned (returned after the receiver)
+	elemVars    map[types.Object]string // loop variables over symbolic slices of abstract elements: Lean type
 }
 
 type ex struct {
@@ -1768,6 +1772,9 @@ func (c *fctx) call(x *ast.CallExpr) ex {
 		for _, a := range x.Args {
 			if lt := c.t.leanType(c.typeOf(a)); lt != "" {
 				xs, sig = append(xs, c.expr(a)), append(sig, lt)
+			} else if id, ok := a.(*ast.Ident); ok && c.elemVars[c.p.info.Uses[id]] != "" {
+				// the loop variable of a range over a symbolic slice: the element's token
+				xs, sig = append(xs, ex{code: leanIdent(id.Name)}), append(sig, c.elemVars[c.p.info.Uses[id]])
 			}
 		}
 		decl := "(" + name + " : " + strings.Join(append(sig, c.t.valType(c.typeOf(x))), " → ") + ")"
@@ -2338,6 +2345,17 @@ func (c *fctx) rangeLoop(x *ast.RangeStmt, rest []ast.Stmt) string {
 		elT = "(" + c.t.leanType(mp.Key()) + " × " + c.t.leanType(mp.Elem()) + ")"
 	} else {
 		elT = c.t.leanType(sl.Elem())
+		if lt := c.t.leanType(c.typeOf(x.X)); elT == "" && strings.HasPrefix(lt, "(List ") {
+			// a slice type declared symbolic ("[]pkg.T": "(List String)"): the elements
+			// are tokens; the loop variable may be handed to an "fn" callee
+			elT = strings.TrimSuffix(strings.TrimPrefix(lt, "(List "), ")")
+			if id, ok := x.Value.(*ast.Ident); ok && c.p.info.Defs[id] != nil {
+				if c.elemVars == nil {
+					c.elemVars = map[types.Object]string{}
+				}
+				c.elemVars[c.p.info.Defs[id]] = elT
+			}
+		}
 	}
 	// carried variables
 	var vars, varTypes []string
